@@ -926,7 +926,7 @@ pub fn run_c02(ctx: &Ctx) -> i32 {
     // (b'') a referenced definition (with all references to it) renamed to an unusual but legal name: nothing else changes
     let mut awkward_n = 0;
     {
-        let kinds: [(&str, &[&str]); 8] = [
+        let kinds: [(&str, &[&str]); 10] = [
             ("DAY-SCHEDULE-PD", &["DAY-SCHEDULES"]),
             ("WEEK-SCHEDULE-PD", &["WEEK-SCHEDULES"]),
             ("SCHEDULE-PD", &["PEOPLE-SCHEDULE", "LIGHTING-SCHEDULE", "EQUIP-SCHEDULE", "HEAT-TEMP-SCH", "COOL-TEMP-SCH", "INF-SCHEDULE", "HEATING-SCHEDULE", "COOLING-SCHEDULE", "FAN-SCHEDULE", "SEASON-SCH"]),
@@ -935,6 +935,8 @@ pub fn run_c02(ctx: &Ctx) -> i32 {
             ("NAME-FRAME", &["NAME-FRAME"]),
             ("GAP", &["GAP"]),
             ("POLYGON", &["POLYGON"]),
+            ("CONSTRUCTION", &["CONSTRUCTION"]),
+            ("LAYERS", &["LAYERS"]),
         ];
         let long = "x".repeat(100);
         let names: [&str; 4] = ["Nombre  con  dos  blancos", "Con, comas (y parentesis)", "ñandú € 𝜆 24 cm", long.as_str()];
@@ -946,7 +948,13 @@ pub fn run_c02(ctx: &Ctx) -> i32 {
             for (kb, refkeys) in kinds.iter() {
                 // every referenced definition of the kind (up to 12), one at a time
                 for b in lx.blocks.iter().filter(|b| b.btype == *kb).filter(|b| lx.blocks.iter().any(|x| x.attrs.iter().any(|(k, v)| refkeys.contains(&k.as_str()) && bdl::names_in(v).contains(&b.name)))).take(12) {
-                for newname in names {
+                // ... and the name of another referenced definition of the same kind written in capitals (names are case-sensitive)
+                let other_upper: Option<String> = lx.blocks.iter().filter(|x| x.btype == *kb && x.name != b.name && x.name.to_uppercase() != x.name).find(|x| lx.blocks.iter().any(|y| y.attrs.iter().any(|(k, v)| refkeys.contains(&k.as_str()) && bdl::names_in(v).contains(&x.name)))).map(|x| x.name.to_uppercase());
+                let mut all_names: Vec<&str> = names.to_vec();
+                if let Some(u) = &other_upper {
+                    all_names.push(u.as_str());
+                }
+                for newname in all_names {
                     let mut out = String::new();
                     let mut cur_key_is_ref = false;
                     for l in text.split_inclusive('\n') {
@@ -1238,7 +1246,7 @@ pub fn run_c02(ctx: &Ctx) -> i32 {
     ctx.sample(json!({"part": "closure", "file": "cubo.ctehexml", "oracle": "ids unique per collection, 17 reference kinds resolve, no nil id, bemodel::check empty"}));
     ctx.finish(
         "fault_enumeration",
-        "(a) every shipped project (12 .ctehexml with catalog, 56 legacy .cte with catalog + default general data) and generated projects: a successful conversion must be referentially closed (generated ones also: every space linked to the loads and the set-points it names, which carry different names on the upper storeys); the same closure oracle on every numeric token -> 0 and -> -1 of the smallest project of each format (3 smallest in thorough) (ids unique per collection, 17 reference kinds resolve, no nil id) and silent under bemodel::check; (b') every ordered pair of definition kinds (day/week/year schedule, material, glazing, frame, gap, polygon): a referenced definition of one kind renamed, with its references, to the name of a definition of the other kind (cubo and one generated project) must convert to the same closed model or fail; (b'') the same definitions renamed, with their references, to unusual legal names (double blanks, commas and parentheses, non-ASCII and astral letters, 100 letters) must convert to the same closed model or fail; (d) on the parsed project data of the smallest projects of each format and generated ones: every wall's space / construction / adjacent-space name, every window's wall / construction name redirected to an unknown name (windows also with their shading devices removed), every wall and space renamed under its referrers, every construction, used material / glazing / frame and every schedule removed - the conversion must fail or give a closed model; (e) a WINDOW block moved behind the first block of every other type and to the beginning of the document; (f) every 'definition removed' variant of the smallest projects converted as the only conversion of a fresh process and straight after the intact project in one process: same verdict; (c) every project obtained by renaming one reference occurrence (attribute keys POLYGON, CONSTRUCTION, LAYERS, MATERIAL, GLASS-TYPE, NAME-FRAME, GAP, SPACE-/SYSTEM-CONDITIONS, NEXT-TO, DAY-/WEEK-SCHEDULES, *-SCHEDULE, *-TEMP-SCH, SPACE-TYPE) or removing one definition block (quick: the 3 smallest projects of each format; thorough: all): the outcome must be an error, or - when the broken name was not needed - a closed model with exactly the same census of elements and resolved links as the intact project; a model with missing/nil links, a silently dropped link, a panic or a timeout is a violation; non-trivial = conversion outcome differs from plain success",
+        "(a) every shipped project (12 .ctehexml with catalog, 56 legacy .cte with catalog + default general data) and generated projects: a successful conversion must be referentially closed (generated ones also: every space linked to the loads and the set-points it names, which carry different names on the upper storeys); the same closure oracle on every numeric token -> 0 and -> -1 of the smallest project of each format (3 smallest in thorough) (ids unique per collection, 17 reference kinds resolve, no nil id) and silent under bemodel::check; (b') every ordered pair of definition kinds (day/week/year schedule, material, glazing, frame, gap, polygon): a referenced definition of one kind renamed, with its references, to the name of a definition of the other kind (cubo and one generated project) must convert to the same closed model or fail; (b'') the same definitions renamed, with their references, to unusual legal names (double blanks, commas and parentheses, non-ASCII and astral letters, 100 letters, the name of another definition of the kind in capitals) must convert to the same closed model or fail; (d) on the parsed project data of the smallest projects of each format and generated ones: every wall's space / construction / adjacent-space name, every window's wall / construction name redirected to an unknown name (windows also with their shading devices removed), every wall and space renamed under its referrers, every construction, used material / glazing / frame and every schedule removed - the conversion must fail or give a closed model; (e) a WINDOW block moved behind the first block of every other type and to the beginning of the document; (f) every 'definition removed' variant of the smallest projects converted as the only conversion of a fresh process and straight after the intact project in one process: same verdict; (c) every project obtained by renaming one reference occurrence (attribute keys POLYGON, CONSTRUCTION, LAYERS, MATERIAL, GLASS-TYPE, NAME-FRAME, GAP, SPACE-/SYSTEM-CONDITIONS, NEXT-TO, DAY-/WEEK-SCHEDULES, *-SCHEDULE, *-TEMP-SCH, SPACE-TYPE) or removing one definition block (quick: the 3 smallest projects of each format; thorough: all): the outcome must be an error, or - when the broken name was not needed - a closed model with exactly the same census of elements and resolved links as the intact project; a model with missing/nil links, a silently dropped link, a panic or a timeout is a violation; non-trivial = conversion outcome differs from plain success",
         true,
         json!({}),
     )
